@@ -594,15 +594,21 @@ func (r *Renderer) Stmt(st N) {
 		r.sp("=")
 		r.Expr(M(st, "e"), " ")
 	case "multivar":
+		isVar := B(st, "var") // "var a, b = e": declares, like "a, b := e"
 		for i, n := range L(st, "ns") {
 			if i == 0 {
+				if isVar {
+					r.emit("var", sep)
+					r.sp(n.(string))
+					continue
+				}
 				r.emit(n.(string), sep)
 			} else {
 				r.tight(",")
 				r.sp(n.(string))
 			}
 		}
-		if B(st, "decl") {
+		if B(st, "decl") && !isVar {
 			r.sp(":=")
 		} else {
 			r.sp("=")
